@@ -29,7 +29,7 @@ from ..mon import lines, sched
 ID = 'C10'
 ANCHORS = ['mido.ports', 'mido.backends._parser_queue']
 LEVEL = 'exploration'
-RULE = ('9 programs of 3-4 threads (1-2 senders, 1-2 receivers) over WirePort loopback, EchoPort, '
+RULE = ('12 programs of 3-4 threads (1-2 senders, 1-2 receivers) over WirePort loopback, EchoPort, '
         'IOPort(WireIn, WireOut), MultiPort fan-out and fan-in, two iter_pending consumers, '
         'ParserQueue with two producers and with two pollers, a SocketPort pair over socketpair(); every yield point is a line of mido/ports.py, parser.py, tokenizer.py, '
         'backends/_parser_queue.py or of the device double, a lock operation or a sleep(). All '
@@ -70,6 +70,9 @@ RT_TYPES = ('clock', 'start', 'continue', 'stop')
 def make_msg(s, q, kind):
     if kind == 3:
         return Message(RT_TYPES[q])      # a real-time message: identified by its type, sent once
+    if kind == 4:
+        # a long sysex: crosses any internal block size of a few KiB
+        return Message('sysex', data=(s, q) + tuple((i * 7) % 128 for i in range(2500)))
     if kind == 0:
         return Message('note_on', channel=s, note=q, velocity=100)
     if kind == 1:
@@ -335,6 +338,89 @@ class P6bParserQueuePollers(Program):
                 receiver(rec, 2, p, 'q', [('poll', 2, 9), ('iter_pending',)])]
 
 
+class P6cParserQueueLong(Program):
+    """Two producers, one of them hands over a 2.5 KB sysex in one put_bytes() call.  Only the lines of
+    _parser_queue.py yield here (the tokenizer would add ~10 steps per byte)."""
+    name = 'P6c-parserqueue-long-message'
+    active_files = ('_parser_queue.py',)
+
+    def build(self, sc, rec):
+        q = ParserQueue()
+        q._parser_lock = self.wraplock(sc, q._parser_lock, 'pq')
+        p = QueuePort(q)
+        self.ports = {'q': p}
+        self.wires = []
+        self.route = lambda pname: ['q']
+        return [sender(rec, 0, p, 'q', 0, (0, 1), (4, 0)), sender(rec, 1, p, 'q', 1, (0, 1), (0, 2)),
+                receiver(rec, 2, p, 'q', [('poll', 2, 9)])]
+
+
+class P8ParseAll(Program):
+    """Two threads call the module-level parse_all()/parse() on their own data; nothing is shared."""
+    name = 'P8-parse_all-in-two-threads'
+    synchronous = False
+
+    def build(self, sc, rec):
+        self.ports = {}
+        self.wires = []
+        self.route = lambda pname: []
+        self.results = {}
+
+        def worker(tid, s):
+            def body():
+                msgs = [make_msg(s, q, k) for q, k in ((0, 0), (1, 1), (2, 2))]
+                stream = [b for m in msgs for b in m.bytes()]
+                rec.call(tid, 'parse_all', 'none')
+                try:
+                    got = mido.parse_all(stream)
+                    first = mido.parse(stream)
+                except sched.SchedAbort:
+                    raise
+                except Exception as exc:
+                    rec.exc(tid, 'parse_all', 'none', exc)
+                    return
+                rec.ret(tid, 'parse_all', 'none', None)
+                self.results[tid] = (got == msgs and first == msgs[0], [m.hex() for m in got])
+            return body
+        return [worker(0, 0), worker(1, 1)]
+
+    def extra_check(self, ctx, case):
+        bad = {t: r[1] for t, r in self.results.items() if not r[0]}
+        ctx.check('received == sent snapshot, not the same object', not bad and len(self.results) == 2,
+                  f'{self.name}:wrong-result', case, bad)
+
+
+class P9PanicVsSend(Program):
+    """reset()/panic() from one thread while another sends: the device must see whole messages."""
+    name = 'P9-panic-and-reset-vs-send'
+
+    def build(self, sc, rec):
+        self.wire = Wire()
+        p = self.wrap(sc, WirePort('w', wire=self.wire), 'w')
+        self.ports = {'w': p}
+        self.wires = [self.wire]
+        self.route = lambda pname: ['w']
+
+        def helper():
+            for control, fn in ((120, p.panic), (123, None)):
+                pass
+            # register what panic() is going to send
+            for ch in range(16):
+                m = Message('control_change', channel=ch, control=120)
+                rec.sent[msg_tag(m)] = (m.copy(), m, 'w')
+            rec.call(0, 'panic', 'w')
+            try:
+                p.panic()
+            except sched.SchedAbort:
+                raise
+            except Exception as exc:
+                rec.exc(0, 'panic', 'w', exc)
+                return
+            for ch in range(16):
+                rec.events.append((rec.sc.step, 0, 'ret', 'send', 'w', ('cc120', ch)))
+        return [helper, sender(rec, 1, p, 'w', 1, (0, 1), (0, 1)), receiver(rec, 2, p, 'w', [('poll', 2, 9)])]
+
+
 class P7SocketPair(Program):
     name = 'P7-socketport-pair'
 
@@ -354,12 +440,13 @@ class P7SocketPair(Program):
 
 
 PROGRAMS = [P1Wire, P2Echo, P3IOPort, P4Fanout, P4Fanin, P5IterPending, P6ParserQueue, P6bParserQueuePollers,
-            P7SocketPair]
+            P7SocketPair, P6cParserQueueLong, P8ParseAll, P9PanicVsSend]
 
 
 def run_schedule(prog_cls, strategy, max_steps=6000):
     """One execution.  Returns (scheduler, recorder, program)."""
-    sc = sched.Scheduler(codes(), strategy, max_steps=max_steps, candidate_files=CANDIDATE_FILES)
+    sc = sched.Scheduler(codes(), strategy, max_steps=getattr(prog_cls, 'max_steps', max_steps),
+                         candidate_files=CANDIDATE_FILES, active_files=getattr(prog_cls, 'active_files', None))
     rec = Recorder(sc)
     prog = prog_cls()
     orig_sleep = mido.ports.sleep
@@ -368,7 +455,7 @@ def run_schedule(prog_cls, strategy, max_steps=6000):
     mido.ports.random = random.Random(12345)
     try:
         bodies = prog.build(sc, rec)
-        sc.run(bodies, wall_timeout=30.0)
+        sc.run(bodies, wall_timeout=10.0)
     finally:
         mido.ports.sleep = orig_sleep
         mido.ports.random = orig_random
@@ -503,6 +590,8 @@ def check_history(ctx, sc, rec, prog, case):
                 if snap is None or bs != snap[0].bytes():
                     bad = {'tag': list(map(str, tag)), 'bytes': bs}
         ctx.check('wire bytes contiguous', bad is None, f'{pname}:wire-interleaved', case, bad)
+    if hasattr(prog, 'extra_check'):
+        prog.extra_check(ctx, case)
 
 
 class FreeClock:
@@ -622,6 +711,48 @@ def stress_phase(ctx, budget_s):
     return n
 
 
+def blocking_get_case(ctx, nconsumers, nmsgs):
+    """Real threads blocked in ParserQueue.get(): one put_bytes() call that completes several
+    messages must wake enough of them.  Verdict by state, not by time: a consumer still blocked
+    while a message sits in the queue (10 s after the call) is a lost wake-up."""
+    import threading as _th
+    import time as _t
+    q = ParserQueue()
+    got = []
+    lock = _th.Lock()
+
+    def consumer():
+        m = q.get()
+        with lock:
+            got.append(m)
+    ths = [_th.Thread(target=consumer, daemon=True) for _ in range(nconsumers)]
+    for t in ths:
+        t.start()
+    t_end = _t.time() + 5
+    while _t.time() < t_end and len(getattr(q._queue.not_empty, '_waiters', ())) < nconsumers:
+        _t.sleep(0.001)
+    msgs = [make_msg(0, i, i % 3) for i in range(nmsgs)]
+    q.put_bytes([b for m in msgs for b in m.bytes()])
+    t_end = _t.time() + 10
+    while _t.time() < t_end and len(got) < min(nconsumers, nmsgs):
+        _t.sleep(0.002)
+    case = {'kind': 'blocking-get', 'consumers': nconsumers, 'messages': nmsgs}
+    blocked = sum(1 for t in ths if t.is_alive())
+    pending = q._queue.qsize()
+    want_blocked = max(0, nconsumers - nmsgs)
+    ctx.check('no empty answer while certainly queued', not (blocked > want_blocked and pending > 0),
+              'parserqueue:get-blocked-with-message-pending', case, {'blocked_consumers': blocked, 'pending': pending})
+    ctx.check('exactly once (nothing lost, duplicated, invented)',
+              sorted([m.hex() for m in got] + [m.hex() for m in q.iterpoll()]) == sorted(m.hex() for m in msgs)
+              if blocked == want_blocked else True, 'parserqueue:get-lost', case, len(got))
+    for _ in range(blocked):
+        q.put(None)            # release the remaining consumers
+
+
+class StopProgram(Exception):
+    pass
+
+
 def explore_program(ctx, pi, prog_cls, k, shard_filter, n_random, n_pct, tier):
     """Bounded-preemption enumeration (sharded by first preemption) + sampling."""
     distinct = set()
@@ -629,6 +760,10 @@ def explore_program(ctx, pi, prog_cls, k, shard_filter, n_random, n_pct, tier):
 
     def one(strategy, label, extra):
         sc, rec, prog = run_schedule(prog_cls, strategy)
+        if sc.aborted == 'wall clock watchdog':
+            # a thread is stuck outside the scheduler's control (e.g. on a real lock taken by the
+            # code under test across a yield point): give up on this program, never a verdict
+            raise StopProgram(f'{prog_cls.name}: a schedule did not finish within the wall-clock watchdog')
         case = lambda: {'kind': 'schedule', 'program': pi, 'strategy': label, **extra}  # noqa: E731
         check_history(ctx, sc, rec, prog, case)
         distinct.add(hash(sc.trace_key()))
@@ -657,6 +792,9 @@ def explore_program(ctx, pi, prog_cls, k, shard_filter, n_random, n_pct, tier):
                 seconds = seconds[::max(1, len(seconds) // 6)]      # a thin slice of the 2-preemption space
             for pt2 in seconds:
                 one(sched.Preempt((pt, pt2)), 'preempt', {'points': [list(pt), list(pt2)]})
+    scale = min(1.0, 350.0 / max(sc0.step, 1))        # long programs: fewer sampled schedules
+    n_random = max(5, int(n_random * scale))
+    n_pct = max(3, int(n_pct * scale))
     for j in range(n_random):
         seed = f'{ctx.seed}:{ctx.shard}:{pi}:r{j}'
         one(sched.RandomWalk(random.Random(seed), p=random.Random(seed + 'p').choice((0.03, 0.1, 0.3))),
@@ -675,11 +813,19 @@ def run(ctx):
     for pi, prog_cls in enumerate(PROGRAMS):
         nr = (1500 if ctx.tier == 'quick' else 100000) // N
         npct = (500 if ctx.tier == 'quick' else 30000) // N
-        d, st = explore_program(ctx, pi, prog_cls, k, lambda j: j % N == sh, nr, npct, ctx.tier)
+        try:
+            d, st = explore_program(ctx, pi, prog_cls, k, lambda j: j % N == sh, nr, npct, ctx.tier)
+        except StopProgram as exc:
+            ctx.undecided(str(exc))
+            continue
         for h in d:
             ctx.nontrivial(h ^ (pi << 60))
         total.update(st)
         ctx.extra('schedules_per_program', {prog_cls.name: st['schedules']})
+    if sh == 1 % N:
+        for nc, nm in ((2, 2), (2, 3), (3, 2), (1, 1), (3, 5)):
+            blocking_get_case(ctx, nc, nm)
+            ctx.nontrivial(('blocking-get', nc, nm))
     nstress = 0
     if ctx.tier == 'thorough':
         nstress = stress_phase(ctx, 25.0)
@@ -697,6 +843,9 @@ def run(ctx):
 
 
 def replay(ctx, case):
+    if case.get('kind') == 'blocking-get':
+        blocking_get_case(ctx, case['consumers'], case['messages'])
+        return
     prog_cls = PROGRAMS[case['program']]
     if case.get('kind') == 'stress':
         print('free-running stress histories are not replayable; the recorded history is the witness:')
